@@ -79,6 +79,7 @@ pub open spec fn is_dir_role(r: Role) -> bool { r == Role::STAGING_DIR || r == R
         /*delete_under_intents_only*/ old(w).has(F::Intents) && !old(w).has(F::StateW) && !old(w).has(F::StateR) && !old(w).has(F::Wal),
         /*delete_requires_filtered_in_same_cs*/ old(w).has(F::CsFiltered) && old(w).has(F::CsApplied),
         /*delete_requires_durable_record*/ old(w).has(F::WalDurable),
+        old(w).has(F::OwnsDirlock),
     ensures *final(w) == (old(w).set(F::Deleted, true)) { unimplemented!() }
 /// replay callback: takes the state write lock for one apply
 #[verifier::external_body] pub fn cb_apply_op_fn(w: &mut World) -> (ok: bool)
@@ -196,6 +197,7 @@ pub open spec fn is_dir_role(r: Role) -> bool { r == Role::STAGING_DIR || r == R
         /*blob_unlink_requires_protocol*/ r == Role::BLOB ==> old(w).has(F::Intents) && ((old(w).has(F::CsFiltered) && old(w).has(F::CsApplied) && old(w).has(F::WalDurable)) || old(w).has(F::CsOrphanOk)),
         /*segment_unlink_requires_saved_snapshot*/ r == Role::OLDSEG ==> old(w).has(F::SnapSaved),
         /*staged_copy_dropped_only_after_failed_rename*/ r == Role::STAGING ==> old(w).has(F::RenameTried),
+        /*mutation_requires_dirlock*/ old(w).has(F::OwnsDirlock),
     ensures *final(w) == (if r == Role::STAGING { old(w).set(F::BlobAtFinal, ok || old(w).has(F::BlobAtFinal)) } else { *old(w) }) { unimplemented!() }
 #[verifier::external_body] pub fn ev_try_lock(w: &mut World, r: Role) -> (ok: bool)
     requires r == Role::LOCKFILE,
